@@ -225,6 +225,15 @@ def kind_task(t):
                 bad = ("exception:%s" % type(e).__name__, "building/rendering raised %s: %s" % (type(e).__name__, str(e)[:100]))
             if bad is None:
                 bad, v = judge_script(ns, text)
+            if bad is None:
+                # reading a filter back is an observation: the rendering afterwards must be the same text
+                try:
+                    fs.get_filter_conditions("f"), fs.get_filter_actions("f"), fs.get_filter_matchtype("f"), fs.getfilter("f")
+                    text2 = F.render(fs)
+                except Exception as e:  # noqa
+                    text2 = "%s: %s" % (type(e).__name__, e)
+                if text2 != text:
+                    bad = ("changed-by-read-back", "after get_filter_conditions/actions/matchtype the set renders differently: %r" % text2[:160])
             if bad is None and not two and bshape is not None:
                 shape, strings = F.tree_shape(v.tree)
                 if shape != bshape:
